@@ -176,6 +176,8 @@ NOCORE_PRELUDE = """#![feature(no_core, lang_items, rustc_attrs, abi_vectorcall)
 #[lang = "meta_sized"] pub trait MetaSized: PointeeSized {}
 #[lang = "sized"] pub trait Sized: MetaSized {}
 #[lang = "copy"] pub trait Copy {}
+#[lang = "neg"] pub trait Neg { type Output; fn neg(self) -> Self::Output; }
+impl Neg for isize { type Output = isize; fn neg(self) -> isize { -self } }
 pub mod __core { #[repr(u8)] pub enum c_void { A, B } }
 """
 _NIGHTLY = None
